@@ -18,6 +18,54 @@ COMMANDS = ["sed"]
 # Flags that take a separate argument
 FLAGS_WITH_ARG = frozenset({"-e", "--expression", "-f", "--file"})
 
+# GNU sed's long options (getopt_long accepts any unambiguous prefix)
+_LONG_OPTIONS = (
+    "--debug",
+    "--expression",
+    "--file",
+    "--follow-symlinks",
+    "--help",
+    "--in-place",
+    "--line-length",
+    "--null-data",
+    "--posix",
+    "--quiet",
+    "--regexp-extended",
+    "--sandbox",
+    "--separate",
+    "--silent",
+    "--unbuffered",
+    "--version",
+    "--zero-terminated",
+)
+
+# Short flags without an argument (may precede -i in one cluster, e.g. -ni)
+_SHORT_NOARG = frozenset("nEsruz")
+
+
+def _long_option(token: str) -> str:
+    """Expand an abbreviated long option to its full name (token if not unique)."""
+    name = token.split("=", 1)[0]
+    if not name.startswith("--") or len(name) < 3:
+        return token
+    matches = [o for o in _LONG_OPTIONS if o.startswith(name)]
+    if len(matches) == 1:
+        return matches[0] + token[len(name) :]
+    return token
+
+
+def _is_inplace_flag(token: str) -> bool:
+    """-i, -i.bak, -ni, -Ei, --in-place[=SUFFIX] and its abbreviations."""
+    if token.startswith("--"):
+        return _long_option(token).startswith("--in-place")
+    if token.startswith("-"):
+        for ch in token[1:]:
+            if ch == "i":
+                return True
+            if ch not in _SHORT_NOARG:
+                return False  # -e/-f/-l: the rest of the token is their argument
+    return False
+
 # Pattern to detect 'w' command writing to a file
 # Matches: s/pat/repl/w filename, /pat/w filename, w filename
 # The w must be followed by a space and filename
@@ -53,7 +101,7 @@ def _extract_scripts(tokens: list[str]) -> list[str]:
     found_script_arg = False
 
     while i < len(tokens):
-        t = tokens[i]
+        t = _long_option(tokens[i])
 
         # -e script or --expression=script
         if t == "-e" or t == "--expression":
@@ -64,6 +112,12 @@ def _extract_scripts(tokens: list[str]) -> list[str]:
             continue
         if t.startswith("--expression="):
             scripts.append(t[13:])
+            found_script_arg = True
+            i += 1
+            continue
+        # -eSCRIPT (attached)
+        if t.startswith("-e") and len(t) > 2:
+            scripts.append(t[2:])
             found_script_arg = True
             i += 1
             continue
@@ -79,7 +133,7 @@ def _extract_scripts(tokens: list[str]) -> list[str]:
         # Skip other flags
         if t.startswith("-"):
             # Handle -i with optional suffix
-            if t == "-i" or t.startswith("-i") or t.startswith("--in-place"):
+            if _is_inplace_flag(t):
                 i += 1
                 continue
             # Other flags
@@ -124,14 +178,15 @@ def _extract_inplace_files(tokens: list[str]) -> list[str]:
 
     # First pass: check if -e is used
     for t in tokens[1:]:
-        if t == "-e" or t == "--expression" or t.startswith("--expression="):
+        t = _long_option(t)
+        if t.startswith("-e") or t == "--expression" or t.startswith("--expression="):
             has_e_flag = True
             break
 
     # Second pass: extract files
     i = 1
     while i < len(tokens):
-        t = tokens[i]
+        t = _long_option(tokens[i])
 
         # Skip flags with arguments
         if t in FLAGS_WITH_ARG:
@@ -142,7 +197,7 @@ def _extract_inplace_files(tokens: list[str]) -> list[str]:
             continue
 
         # Skip -i variants
-        if t == "-i" or t.startswith("-i") or t.startswith("--in-place"):
+        if _is_inplace_flag(t):
             i += 1
             continue
 
@@ -183,10 +238,7 @@ def classify(ctx: HandlerContext) -> Classification:
     # Check for -i flag (in-place modification)
     has_inplace = False
     for t in tokens[1:]:
-        if t == "-i" or t.startswith("-i"):
-            has_inplace = True
-            break
-        if t == "--in-place" or t.startswith("--in-place"):
+        if _is_inplace_flag(t):
             has_inplace = True
             break
 
